@@ -140,6 +140,7 @@ impl<S: EventSource> EventSource for Wrap<S> {
         let injected = crate::engine::pe_begin(self.sh.id, token.verif_key());
         if self.sh.should_fail(4) || injected {
             self.sh.last_ret.set(Some(LastRet::Err));
+            crate::engine::note_failure(true, Scripted("process_events").to_string());
             crate::engine::pe_end(self.sh.id, LastRet::Err, true);
             return Err(Box::new(Scripted("process_events")));
         }
@@ -149,8 +150,12 @@ impl<S: EventSource> EventSource for Wrap<S> {
             Err(_) => LastRet::Err,
         };
         self.sh.last_ret.set(Some(lr));
+        let r: Result<PostAction, Self::Error> = r.map_err(Into::into);
+        if let Err(e) = &r {
+            crate::engine::note_failure(true, e.to_string());
+        }
         crate::engine::pe_end(self.sh.id, lr, false);
-        r.map_err(Into::into)
+        r
     }
 
     fn register(&mut self, poll: &mut Poll, tf: &mut TokenFactory) -> calloop::Result<()> {
@@ -158,11 +163,14 @@ impl<S: EventSource> EventSource for Wrap<S> {
         self.sh.drop_victims(2, "drop inside register()");
         if self.sh.should_fail(1) {
             crate::engine::scripted_failure(self.sh.id, 1);
+            crate::engine::note_failure(false, "register".into());
             return Err(scripted_io("register"));
         }
         let r = self.inner.register(poll, tf);
         if r.is_ok() {
             self.sh.registered.set(true);
+        } else {
+            crate::engine::note_failure(false, "register".into());
         }
         r
     }
@@ -172,9 +180,14 @@ impl<S: EventSource> EventSource for Wrap<S> {
         self.sh.drop_victims(1, "drop inside reregister()");
         if self.sh.should_fail(2) {
             crate::engine::scripted_failure(self.sh.id, 2);
+            crate::engine::note_failure(false, "reregister".into());
             return Err(scripted_io("reregister"));
         }
-        self.inner.reregister(poll, tf)
+        let r = self.inner.reregister(poll, tf);
+        if r.is_err() {
+            crate::engine::note_failure(false, "reregister".into());
+        }
+        r
     }
 
     fn unregister(&mut self, poll: &mut Poll) -> calloop::Result<()> {
@@ -182,11 +195,14 @@ impl<S: EventSource> EventSource for Wrap<S> {
         self.sh.drop_victims(0, "drop inside unregister()");
         if self.sh.should_fail(3) {
             crate::engine::scripted_failure(self.sh.id, 3);
+            crate::engine::note_failure(false, "unregister".into());
             return Err(scripted_io("unregister"));
         }
         let r = self.inner.unregister(poll);
         if r.is_ok() {
             self.sh.registered.set(false);
+        } else {
+            crate::engine::note_failure(false, "unregister".into());
         }
         r
     }
